@@ -4,7 +4,7 @@
    (b) the REGENERATED inventory of every store and mutation in the package (Gen/Effects.v) satisfies the policy of
    Proofs/EffectsPolicy.v: no global state besides DEFAULT_ENV, compiled objects are written only in __init__, data
    reached through parameters is never mutated, no caching decorators. *)
-From JP Require Import Base.Json Model.Ast Model.Api Model.History Model.EffectLang Gen.Effects Proofs.EffectsPolicy Proofs.GenTies.
+From JP Require Import Base.Json Model.Ast Model.Api Model.History Model.EffectLang Gen.Effects Proofs.EffectsPolicy Proofs.TieEffects.
 
 Theorem C14_effects : pure_package g_effects g_bindings = true.
 Proof. exact package_is_pure. Qed.
